@@ -248,8 +248,46 @@ def run_throttle(cfg, arrivals, strategy, seed=0, tid=1):
     def func():
         starts.append(vc.now)
         return 1
-    throttled = diskcache.throttle(cache, cfg['count'], cfg['seconds'], name='thr', time_func=lambda: vc.now,
-                                   sleep_func=sch.vsleep)(func)
+    import math
+    SC = 1000                           # times in 1/(q*SC) s, tokens in 1/(q*SC) token
+    U = q * SC
+    passes = []                         # one record per pass of the loop, in the order of the transactions
+    cur = {}
+
+    class Rec(object):
+        """The cache handed to throttle(): records what each pass reads and writes (inside its transaction)."""
+        def __getattr__(self, name):
+            return getattr(cache, name)
+
+        def get(self, key, *a, **kw):
+            v = cache.get(key, *a, **kw)
+            if key == 'thr' and isinstance(v, tuple) and len(v) == 2:
+                cur[sch.me()] = {'ev': 'pass', 'c': getattr(sch.me(), 'cid', 0), 'last': int(round(v[0] * U)), 'tally': int(round(v[1] * U)),
+                                               'act': 'sleep', 'wnow': 0, 'wtally': 0}
+                passes.append(cur[sch.me()])
+            return v
+
+        def set(self, key, value, *a, **kw):
+            r = cache.set(key, value, *a, **kw)
+            rec_ = cur.get(sch.me())
+            if key == 'thr' and rec_ is not None:
+                rec_.update({'act': 'start', 'wnow': int(round(value[0] * U)), 'wtally': int(round(value[1] * U))})
+            elif key == 'thr':
+                passes.append({'ev': 'init', 'c': 0, 'last': 0, 'tally': 0, 'act': 'init', 'wnow': int(round(value[0] * U)), 'wtally': int(round(value[1] * U)), 'now': 0, 'delay': 0})
+            return r
+
+    def timef():
+        rec_ = cur.get(sch.me())
+        if rec_ is not None:
+            rec_['now'] = int(round(vc.now * U))
+        return vc.now
+
+    def sleepf(delay):
+        rec_ = cur.get(sch.me())
+        if rec_ is not None:
+            rec_['delay'] = int(round(delay * U))
+        return sch.vsleep(delay)
+    throttled = diskcache.throttle(Rec(), cfg['count'], cfg['seconds'], name='thr', time_func=timef, sleep_func=sleepf)(func)
     caches = {}
     try:
         def client(cid, gaps):
@@ -264,14 +302,15 @@ def run_throttle(cfg, arrivals, strategy, seed=0, tid=1):
             sch.add_client(cid, client(cid, gaps), warmup=cache.__enter__)
         events = sch.run()
         stuck = any(e['ev'] == 'stuck' for e in events)
-        import math
-        SC = 1000                       # start times in 1/(q*1000) s, rounded down (lo) and up (hi): sound for the bound
-        ts = sorted(starts)
+        ts = sorted(starts)                # start times rounded down (lo) and up (hi): sound for the bound
+        for p_ in passes:
+            p_.setdefault('now', 0)
+            p_.setdefault('delay', 0)
         lo = [int(math.floor(t * q * SC + 1e-6)) for t in ts]
         hi = [int(math.ceil(t * q * SC - 1e-6)) for t in ts]
         return {'id': tid, 'kind': 'thr', 'nc': max(arrivals), 'cfg': cfg, 'program': arrivals, 'schedule': list(sch.choices)[:80],
                 'count': cfg['count'], 'secq': cfg['seconds'] * q * SC, 'q': q * SC, 'calls': sum(len(g) for g in arrivals.values()),
-                'starts': lo, 'starts_hi': hi, 'stuck': stuck, 'ev': [{'ev': 'check', 'c': 0}]}
+                'starts': lo, 'starts_hi': hi, 'stuck': stuck, 'seconds': cfg['seconds'], 'ev': passes + [{'ev': 'check', 'c': 0}]}
     finally:
         try:
             cache.close()
